@@ -1030,7 +1030,19 @@ def round_(x):
     p = topoly(x)
     if p.is_int:
         return x
-    raise NotEncodable("round of a symbolic real")
+    # round-half-to-even of a symbolic real: an Int variable k with |x - k| <= 1/2 and even k at the two ties
+    key = ("round", id(ENV.side), frozenset(p.t.items()))
+    if key in _PURE:
+        return _PURE[key]
+    ENV.fresh_counter += 1
+    k = z3.Int(f"__round{ENV.fresh_counter}")
+    xe = poly_z3(p, False)
+    half = z3.RealVal("1/2")
+    kr = z3.ToReal(k)
+    add_side(z3.And(kr - half <= xe, xe <= kr + half, z3.Implies(z3.Or(xe == kr - half, xe == kr + half), k % 2 == 0)))
+    r = topoly(k)
+    _PURE[key] = r
+    return r
 
 
 def to_int_like(x):
